@@ -67,6 +67,20 @@ impl Ctx {
         std::fs::create_dir_all(&p).expect("scratch dir");
         p
     }
+    /// Scratch directory for fsync-heavy work: on tmpfs (/dev/shm) when available (a WAL
+    /// workload syncs after every record; on a disk-backed filesystem that dominates the run
+    /// time), else like `scratch`. Removed by the caller.
+    pub fn fast_scratch(&self, tag: &str) -> PathBuf {
+        let base = PathBuf::from("/dev/shm");
+        if base.is_dir() {
+            let p = base.join("verif-scratch").join(format!("{}-{}-{}-{}", self.id, tag, self.shard, std::process::id()));
+            let _ = std::fs::remove_dir_all(&p);
+            if std::fs::create_dir_all(&p).is_ok() {
+                return p;
+            }
+        }
+        self.scratch(tag)
+    }
     pub fn is_known(&self, sig: &str) -> bool {
         self.known
             .get(sig)
